@@ -8,6 +8,7 @@ this run, and the line ranges that were not.  numba-compiled kernels execute out
 "not executed" although they ran: they are listed separately (functions decorated with njit)."""
 import ast
 import json
+import os
 import re
 import sys
 from pathlib import Path
@@ -123,6 +124,8 @@ class LineCov:
                     wide += [(a, b) for a, b in spans if a <= hi and lo <= b]
                 ex = {l for l in ex if any(lo <= l <= hi for lo, hi in wide)}
             in_njit = {l for l in ex if any(lo <= l <= hi for lo, hi, _ in njit)}
+            if os.environ.get('NUMBA_DISABLE_JIT') == '1':      # diagnostic runs: the kernels run in the interpreter
+                in_njit = set()
             ex -= in_njit
             hit = self.hit.get(str(path), set()) & ex
             missed = sorted(ex - hit)
